@@ -271,7 +271,7 @@ func (c *Ctx) finish(verifDir string, wall float64, seed int64, evidencePath str
 	}
 	sort.Strings(fnames)
 	cov := map[string]any{
-		"explanation":         c.Explanation,
+		"explanation":         c.fullExplanation(),
 		"obligations":         total,
 		"discharged":          discharged,
 		"evaluations":         total,
@@ -340,4 +340,19 @@ func (c *Ctx) finish(verifDir string, wall float64, seed int64, evidencePath str
 		fmt.Printf("OK property=%s tier=%s obligations=%d discharged=%d rules=%d config=%s\n", c.Prop, c.Tier, total, discharged, len(c.Rules), c.P.Config)
 	}
 	return 0
+}
+
+// fullExplanation appends the statements of the rules the hand-written explanation does not name.
+func (c *Ctx) fullExplanation() string {
+	var extra []string
+	for _, r := range c.Rules {
+		if !strings.Contains(c.Explanation, r.ID) {
+			extra = append(extra, "("+r.ID+") "+r.Doc)
+		}
+	}
+	if len(extra) == 0 {
+		return c.Explanation
+	}
+	sort.Strings(extra)
+	return c.Explanation + " Further rules decided by this check: " + strings.Join(extra, "; ") + "."
 }
